@@ -13,7 +13,7 @@ theorem mask_fits (bl bp : Nat) : (2 ^ bl - 1) * 2 ^ bp < 256 ^ ((bl + bp + 7) /
   exact Nat.lt_of_lt_of_le h1 (Nat.pow_le_pow_right (by decide) (by omega))
 
 /-- what `emplaceAtomic` does for an in-range `A_INT32` value, no bit mask, strict mode -/
-theorem emplaceAtomic_int32 (enc : Option Enc) (hk : int32Known enc = true) (bl : Nat) (hbl : 1 ≤ bl) (v : Int)
+theorem emplaceAtomic_int32 (enc : Option Enc) (hk : int32Known enc = true) (bl : Nat) (hbl : 1 ≤ bl) (hbl64 : bl ≤ 64) (v : Int)
     (hr : int32InRange enc bl v) (hl : Bool) (s : EncState) :
     ∃ s', emplaceAtomic (.int v) bl .int32 enc hl none s true = .ok ((), s') ∧
       s'.msg = placeBytes s.msg s.cursorByte
@@ -27,42 +27,46 @@ theorem emplaceAtomic_int32 (enc : Option Enc) (hk : int32Known enc = true) (bl 
     omega
   have hmask : ¬ (256 ^ ((bl + s.cursorBit + 7) / 8) ≤ (2 ^ bl - 1) * 2 ^ s.cursorBit) :=
     Nat.not_le.mpr (mask_fits bl s.cursorBit)
+  have h64 : ¬ (64 < bl) := by omega
   simp [emplaceAtomic, emplaceBytes, bind, pure, run_ite, run_bind, run_pure, run_getS, run_setS, run_raise,
-    BaseType.isNumeric, rawOfInt32_ok enc hk bl hbl v hr s, hb0, hge, hmask]
+    BaseType.isNumeric, rawOfInt32_ok enc hk bl hbl v hr s, hb0, hge, hmask, h64]
   cases hl <;> simp [ord, toBytesBE_length]
 
 /-- an out-of-range `A_INT32` value is rejected with the library's encode error and nothing is written -/
 theorem emplaceAtomic_int32_reject (enc : Option Enc) (hk : int32Known enc = true) (bl : Nat) (hbl : 1 ≤ bl) (v : Int)
     (hr : ¬ int32InRange enc bl v) (hl : Bool) (m : Option Bytes) (s : EncState) :
     emplaceAtomic (.int v) bl .int32 enc hl m s true = .error (.encode, s) := by
-  simp [emplaceAtomic, bind, run_bind, rawOfInt32_reject enc hk bl hbl v hr s]
+  by_cases h64 : 64 < bl
+  · simp [emplaceAtomic, bind, run_bind, run_ite, run_raise, h64]
+  · simp [emplaceAtomic, bind, run_bind, run_ite, run_pure, pure, h64, rawOfInt32_reject enc hk bl hbl v hr s]
 
 /-- what `extractAtomic` does for an `A_INT32` object when the message is long enough, strict mode -/
-theorem extractAtomic_int32 (enc : Option Enc) (hk : int32Known enc = true) (bl : Nat) (hbl : 1 ≤ bl) (hl : Bool)
+theorem extractAtomic_int32 (enc : Option Enc) (hk : int32Known enc = true) (bl : Nat) (hbl : 1 ≤ bl) (hbl64 : bl ≤ 64) (hl : Bool)
     (d : DecState) (hlen : d.cursorByte + (bl + d.cursorBit + 7) / 8 ≤ d.msg.length) :
     extractAtomic bl .int32 enc hl d true =
       .ok (.int (int32OfRaw enc bl (readNum d.msg d.cursorByte ((bl + d.cursorBit + 7) / 8) hl / 2 ^ d.cursorBit % 2 ^ bl)),
            { d with cursorByte := d.cursorByte + (bl + d.cursorBit + 7) / 8, cursorBit := 0 }) := by
   have hb0 : bl ≠ 0 := by omega
   have hnl : ¬ (d.msg.length < d.cursorByte + (bl + d.cursorBit + 7) / 8) := by omega
+  have h64 : ¬ (64 < bl) := by omega
   unfold int32Known at hk
   simp only [Bool.or_eq_true, decide_eq_true_eq] at hk
   have hk' : enc = none ∨ enc = some Enc.onec ∨ enc = some Enc.twoc ∨ enc = some Enc.sm := by
     rcases hk with ((h | h) | h) | h <;> simp [h]
   simp [extractAtomic, extractCore, convertRaw, bind, pure, run_ite, run_bind, run_pure, run_getS, run_modifyS, run_raise,
-    BaseType.isNumeric, hb0, hnl, hk']
+    BaseType.isNumeric, hb0, hnl, hk', h64]
 
 /-- **C01/C02, atomic `A_INT32` objects.** For every legal encoding, bit length ≥ 1, bit position,
     byte order, in-range value and *arbitrary* prior message content: the strict encoder succeeds, moves
     the cursor past the object's ⌈(bl+bp)/8⌉ bytes, and the strict decoder run at the same position on the
     produced message returns exactly the encoded value and the same cursor. -/
-theorem atomic_int32_roundtrip (enc : Option Enc) (hk : int32Known enc = true) (bl : Nat) (hbl : 1 ≤ bl) (v : Int)
+theorem atomic_int32_roundtrip (enc : Option Enc) (hk : int32Known enc = true) (bl : Nat) (hbl : 1 ≤ bl) (hbl64 : bl ≤ 64) (v : Int)
     (hr : int32InRange enc bl v) (hl : Bool) (s : EncState) (hmsg : AllBytes s.msg) :
     ∃ s', emplaceAtomic (.int v) bl .int32 enc hl none s true = .ok ((), s') ∧
       AllBytes s'.msg ∧
       extractAtomic bl .int32 enc hl { msg := s'.msg, cursorByte := s.cursorByte, cursorBit := s.cursorBit } true =
         .ok (.int v, { msg := s'.msg, cursorByte := s'.cursorByte, cursorBit := 0 }) := by
-  obtain ⟨s', he, hm, hc, _⟩ := emplaceAtomic_int32 enc hk bl hbl v hr hl s
+  obtain ⟨s', he, hm, hc, _⟩ := emplaceAtomic_int32 enc hk bl hbl hbl64 v hr hl s
   obtain ⟨h0, h1, hinv⟩ := int32Raw_spec enc hk bl hbl v hr
   have hlt : (int32Raw enc bl v).toNat < 2 ^ bl := by
     have : ((2 ^ bl : Nat) : Int) = (2:Int) ^ bl := by simp
@@ -73,7 +77,7 @@ theorem atomic_int32_roundtrip (enc : Option Enc) (hk : int32Known enc = true) (
   have hlen : s.cursorByte + (bl + s.cursorBit + 7) / 8 ≤ s'.msg.length := by
     rw [hm, placeBytes_length _ _ _ _ (by simp [ord_length, toBytesBE_length]), ord_length, toBytesBE_length]
     omega
-  rw [extractAtomic_int32 enc hk bl hbl hl _ hlen]
+  rw [extractAtomic_int32 enc hk bl hbl hbl64 hl _ hlen]
   have hrt := read_place_roundtrip s.msg hmsg s.cursorByte bl s.cursorBit (int32Raw enc bl v).toNat hl hlt
   simp only at hrt
   simp only [hm] at hrt ⊢
